@@ -165,16 +165,29 @@ def cmp_poly(p, op):
     return SymBool(_OPS[op](z), lin, frozenset(p.vars()), (op, p) if (lin and op in ('==', '!=')) else None)
 
 
-class SymReal:
-    """a real number known as an exact rational function of the symbolic inputs"""
-    __slots__ = ('r',)
+def _nn(o):
+    """syntactic non-negativity tag of an operand"""
+    if isinstance(o, SymReal):
+        return o.nn
+    if isinstance(o, (int, _float, Fraction)) and not isinstance(o, bool):
+        return o >= 0
+    return False
 
-    def __init__(self, r):
+
+class SymReal:
+    """a real number known as an exact rational function of the symbolic inputs.
+    `nn` is a *syntactic* certificate of non-negativity (squares, sums/products/quotients of
+    non-negatives): it lets sqrt() skip a domain query for sums of squares."""
+    __slots__ = ('r', 'nn')
+
+    def __init__(self, r, nn=False):
         self.r = r
+        self.nn = nn
 
     @staticmethod
     def const(x):
-        return SymReal(RF(Poly.const(x)))
+        x = Fraction(x)
+        return SymReal(RF(Poly.const(x)), x >= 0)
 
     def is_const(self):
         return self.r.is_const()
@@ -183,16 +196,16 @@ class SymReal:
         return self.r.n.cval()
 
     # arithmetic ------------------------------------------------------------------------------
-    def _bin(self, o, f, swap=False):
+    def _bin(self, o, f, swap=False, nn=False):
         oz = _lift(o)
         if oz is NotImplemented:
             return NotImplemented
         if oz is None:
             raise Concretized('arithmetic with a non-finite float')
-        return SymReal(f(oz, self.r) if swap else f(self.r, oz))
+        return SymReal(f(oz, self.r) if swap else f(self.r, oz), nn)
 
     def __add__(self, o):
-        return self._bin(o, rf_add)
+        return self._bin(o, rf_add, nn=self.nn and _nn(o))
     __radd__ = __add__
 
     def __sub__(self, o):
@@ -202,7 +215,7 @@ class SymReal:
         return self._bin(o, lambda a, b: rf_add(a, b, -1), swap=True)
 
     def __mul__(self, o):
-        return self._bin(o, rf_mul)
+        return self._bin(o, rf_mul, nn=(o is self) or (self.nn and _nn(o)))
     __rmul__ = __mul__
 
     def __truediv__(self, o):
@@ -212,14 +225,14 @@ class SymReal:
         if oz is None:
             return SymReal.const(0)
         _check_div(oz)
-        return SymReal(rf_mul(self.r, rf_inv(oz)))
+        return SymReal(rf_mul(self.r, rf_inv(oz)), self.nn and _nn(o))
 
     def __rtruediv__(self, o):
         oz = _lift(o)
         if oz is NotImplemented:
             return NotImplemented
         _check_div(self.r)
-        return SymReal(rf_mul(oz, rf_inv(self.r)))
+        return SymReal(rf_mul(oz, rf_inv(self.r)), self.nn and _nn(o))
 
     def __neg__(self):
         return SymReal(rf_neg(self.r))
@@ -230,7 +243,10 @@ class SymReal:
     def __abs__(self):
         if self.is_const():
             return SymReal.const(abs(self.cval()))
-        return self if bool(self >= 0) else -self
+        if self.nn:
+            return self
+        r = self if bool(self >= 0) else -self
+        return SymReal(r.r, True)
 
     def __pow__(self, n):
         if isinstance(n, SymReal) and n.is_const():
@@ -244,7 +260,7 @@ class SymReal:
                 r = RF(ONE)
                 for _ in range(n):
                     r = rf_mul(r, self.r)
-                return SymReal(r)
+                return SymReal(r, self.nn or n % 2 == 0)
             return 1 / (self ** (-n))
         if n == 0.5 or n == Fraction(1, 2):
             return sym_sqrt(self)
@@ -587,7 +603,7 @@ class Engine:
             VARS.positive.add(i)
         if param:
             VARS.params.add(i)
-        return SymReal(RF(Poly.var(i)))
+        return SymReal(RF(Poly.var(i)), i in VARS.positive)
 
     # path state --------------------------------------------------------------------------------
     def _begin_path(self, prefix):
@@ -600,6 +616,9 @@ class Engine:
         self.solverL.set('timeout', self.branch_timeout_ms)
         self.decided = {}
         self.nz = set()
+        self.defn_ids = set()
+        self.sqrt_defs = []
+        self.trig_defs = []
         self.fsign = {}
         self.subs = []
         self.rewrites = []
@@ -609,8 +628,10 @@ class Engine:
         _TOKENS.clear()
         clear_lru_caches()
 
-    def _add_pc(self, e, vars_, lin):
+    def _add_pc(self, e, vars_, lin, defn=False):
         self.pc.append((e, vars_, lin))
+        if defn:
+            self.defn_ids.add(e.get_id())
         if lin:
             self.solverL.add(e)
 
@@ -874,7 +895,10 @@ class Engine:
         if s is None:
             zn = poly_to_z3(n)
             vsn = frozenset(n.vars())
-            r, _ = self.check_full([zn < 0], vsn, min(3000, self.branch_timeout_ms))
+            if x.nn:
+                r = 'unsat'          # syntactic sum-of-squares certificate
+            else:
+                r, _ = self.check_full([zn < 0], vsn, min(3000, self.branch_timeout_ms))
             if r == 'sat':
                 if not bool(SymReal(RF(n)) >= 0):
                     raise ValueError('math domain error')
@@ -886,7 +910,9 @@ class Engine:
             si = VARS.idx['sqrt!%d' % self.nsq]
             vs = frozenset(n.vars() | {si})
             self._add_pc(VARS.z3v[si] >= 0, frozenset([si]), True)
-            self._add_pc(VARS.z3v[si] * VARS.z3v[si] == poly_to_z3(n), vs, False)
+            s.nn = True
+            self._add_pc(VARS.z3v[si] * VARS.z3v[si] == poly_to_z3(n), vs, False, defn=True)
+            self.sqrt_defs.append((si, n))
             self.rewrites.append((si, 2, n))
             self.sqrts[key] = s
         if gden.is_const() and gden.cval() == 1:
@@ -902,7 +928,8 @@ class Engine:
             s = self.fresh('sin!%d' % j)
             ci, si = VARS.idx['cos!%d' % j], VARS.idx['sin!%d' % j]
             zc, zs = VARS.z3v[ci], VARS.z3v[si]
-            self._add_pc(zc * zc + zs * zs == 1, frozenset([ci, si]), False)
+            self._add_pc(zc * zc + zs * zs == 1, frozenset([ci, si]), False, defn=True)
+            self.trig_defs.append((ci, si))
             self._add_pc(z3.And(zc >= -1, zc <= 1, zs >= -1, zs <= 1), frozenset([ci, si]), True)
             # rewrite sin^2 -> 1 - cos^2
             self.rewrites.append((si, 2, ONE - Poly.var(ci) * Poly.var(ci)))
@@ -1119,21 +1146,19 @@ class Engine:
         if all(l for _, _, l in self.pc):
             r = self.check_lin(z3.BoolVal(True))
             return r
-        # try the linear model on the nonlinear conjuncts first
+        # 1. numeric witness: model of the linear part, defined variables (sqrt / cos / sin) computed
+        #    from their defining relations, every other conjunct evaluated
         if self.check_lin(z3.BoolVal(True)) == 'sat':
             m = self.solverL.model()
-            ok = True
-            for e, _, l in self.pc:
-                if not l and not z3.is_true(m.eval(e, model_completion=True)):
-                    ok = False
-                    break
-            if ok:
+            if self._numeric_witness(m):
                 return 'sat'
-        # component-wise full check
-        remaining = [ent for ent in self.pc]
+            m2 = self._generic_linear_model()
+            if m2 is not None and self._numeric_witness(m2):
+                return 'sat'
+        # 2. component-wise full check
         seen = set()
         verdict = 'sat'
-        for e, vs, l in remaining:
+        for e, vs, l in list(self.pc):
             if l or e.get_id() in seen:
                 continue
             chosen, _ = self._slice(vs)
@@ -1145,6 +1170,79 @@ class Engine:
             if r == 'unknown':
                 verdict = 'unknown'
         return verdict
+
+    def _generic_linear_model(self):
+        """a model of the linear PC in which free variables take generic (pseudo-random) values"""
+        import random
+        rnd = random.Random(12345)
+        sL = self.solverL
+        sL.push()
+        try:
+            for i in range(len(VARS.names)):
+                nm = VARS.names[i]
+                if nm.startswith(('sqrt!', 'cos!', 'sin!')):
+                    continue
+                if i in VARS.positive:
+                    val = Fraction(rnd.randint(2, 9), rnd.randint(2, 5))
+                else:
+                    val = Fraction(rnd.randint(-12, 12), rnd.randint(2, 7))
+                c = VARS.z3v[i] == z3.Q(val.numerator, val.denominator)
+                if str(self._timed(lambda: sL.check(c), 'branch_queries')) == 'sat':
+                    sL.add(c)
+            if sL.check() != z3.sat:
+                return None
+            return sL.model()
+        finally:
+            sL.pop()
+
+    def _numeric_witness(self, m):
+        import itertools
+        env = {}
+        defined = set(si for si, _ in self.sqrt_defs)
+        for ci, si in self.trig_defs:
+            defined.add(ci)
+            defined.add(si)
+        for i in range(len(VARS.names)):
+            if i in defined:
+                continue
+            v = m.eval(VARS.z3v[i], model_completion=True)
+            try:
+                env[i] = _z3frac(v)
+            except ValueError:
+                return False
+        circle = [(Fraction(3, 5), Fraction(4, 5)), (Fraction(-3, 5), Fraction(4, 5)), (Fraction(3, 5), Fraction(-4, 5)),
+                  (Fraction(5, 13), Fraction(12, 13)), (Fraction(0), Fraction(1)), (Fraction(1), Fraction(0))]
+        combos = itertools.islice(itertools.product(circle, repeat=len(self.trig_defs)), 40)
+        for combo in combos:
+            e2 = dict(env)
+            for (ci, si), (c, s_) in zip(self.trig_defs, combo):
+                e2[ci], e2[si] = c, s_
+            ok = True
+            for si, n in self.sqrt_defs:
+                try:
+                    val = n.evaluate(e2)
+                except KeyError:
+                    ok = False
+                    break
+                if val < 0:
+                    ok = False
+                    break
+                sc = 10 ** 60
+                e2[si] = Fraction(_math.isqrt(val.numerator * sc // val.denominator), 10 ** 30)
+            if not ok:
+                continue
+            subs = [(VARS.z3v[i], z3.RealVal(v) if v.denominator == 1 else z3.Q(v.numerator, v.denominator)) for i, v in e2.items()]
+            good = True
+            for e, _, _ in self.pc:
+                if e.get_id() in self.defn_ids:
+                    continue
+                if not z3.is_true(z3.simplify(z3.substitute(e, *subs))):
+                    good = False
+                    break
+            if good:
+                self.stats.bump('numeric_witnesses')
+                return True
+        return False
 
 
 def _base(name):
